@@ -7,6 +7,16 @@ fn engine(id: &str, tier: &str, replay: Option<&serde_json::Value>) -> Option<gv
         ("C01", Some(v)) => c01::replay(v),
         ("C02", None) => c02::run(tier),
         ("C02", Some(v)) => c02::replay(v),
+        ("C12", None) => c12::run(tier),
+        ("C12", Some(v)) => c12::replay(v),
+        ("C16", None) => c16::run(tier),
+        ("C16", Some(v)) => c16::replay(v),
+        ("C17", None) => c17::run(tier),
+        ("C17", Some(v)) => c17::replay(v),
+        ("C18", None) => c18::run(tier),
+        ("C18", Some(v)) => c18::replay(v),
+        ("C19", None) => c19::run(tier),
+        ("C19", Some(v)) => c19::replay(v),
         ("C04", None) => c04::run(tier),
         ("C04", Some(v)) => c04::replay(v),
         _ => return None,
@@ -38,6 +48,19 @@ fn main() {
             }
         }
     }
+    if args.get(1).map(|s| s.as_str()) == Some("worker") {
+        record_panics();
+        match args.get(2).map(|s| s.as_str()) {
+            Some("c12") => gv::isolate::worker_loop(gv::engines::c12::worker),
+            Some("c16") => gv::isolate::worker_loop(gv::engines::c16::worker),
+            Some("c17") => gv::isolate::worker_loop(gv::engines::c17::worker),
+            other => {
+                eprintln!("unknown worker {:?}", other);
+                std::process::exit(2)
+            }
+        }
+        return;
+    }
     match args.get(1).map(|s| s.as_str()) {
         Some("probe") => {
             record_panics();
@@ -51,7 +74,7 @@ fn main() {
                 args[2].clone()
             };
             let t = std::time::Instant::now();
-            let o = run_fresh(Settings::from_bits(bits), &src);
+            let o = run(&make_vm_with_prim(Settings::from_bits(bits)), "main", &src);
             println!("{:?}  ({:?}) {}", o, t.elapsed(), last_panic_loc());
         }
         Some("count") => {
